@@ -221,6 +221,7 @@ def run_seedhist(task, R):
         else:
             R.record(inp, Verdict(outcome='ref-hashseed-%s' % hs))
     ex = Explorer(dedup=True)
+    nbad = 0
 
     def succ(hist):
         if len(hist) >= task['depth']:
@@ -233,6 +234,10 @@ def run_seedhist(task, R):
         inp = {'kind': 'seedhist', 'config': task['config'], 'history': [list(o) for o in hist]}
         if got != want:
             R.record(inp, bad('seed:construct-and-sample-not-reproducible', None, {'history': [list(o) for o in hist]}))
+            nbad += 1
+            if nbad >= 40:
+                R.cap('seed histories of %s stopped after 40 non-reproducible histories' % task['config'])
+                break
         else:
             R.record(inp, Verdict(nontrivial=len(hist) > 1, outcome='hist-ok:%s' % hashlib.md5(want.encode()).hexdigest()[:6]))
     R.add_explorer(ex)
